@@ -32,6 +32,8 @@ def main():
                 if not os.path.isfile(os.path.join(src, "patch.diff")):
                     continue
                 name = f"{pid}-{k}"
+                if os.path.isfile(os.path.join(ROOT, "seeded", name, "patch.diff")):
+                    continue        # imported by an earlier call
                 env = dict(os.environ, PYTHONPATH=WT)
                 d0 = sh(f"cd {WT} && /venv/bin/python {src}/demo.py", env=env, timeout=600)
                 a = sh(f"git -C {WT} apply {src}/patch.diff")
